@@ -31,6 +31,13 @@ def near_miss_text(rng):
 def entry_points(t):
     c = dc.DebianCopyright.from_text(t)
     a = (c.to_dict(), c.to_dict(with_lines=True), c.dumps(), c.is_valid(), c.is_valid(strict=True))
+    # observing an object (validity, rendering, dictionary form) in any order leaves it as it was
+    kinds = [type(p).__name__ for p in c.paragraphs]
+    a2 = (c.to_dict(), c.to_dict(with_lines=True), c.dumps(), c.is_valid(), c.is_valid(strict=True))
+    c2 = dc.DebianCopyright.from_text(t)
+    a3 = (c2.is_valid(strict=True), c2.is_valid(), c2.dumps(), c2.to_dict(with_lines=True), c2.to_dict())
+    if a2 != a or a3 != a[::-1] or kinds != [type(p).__name__ for p in c2.paragraphs]:
+        raise AssertionError('observing the object (is_valid, dumps, to_dict) changes what it reports next')
     b = list(debcon.get_paragraphs_data(t))
     d = debcon.get_paragraph_data(t)
     e = _d822.groups_t(deb822.get_paragraphs_as_field_groups(t))
